@@ -7,4 +7,10 @@ META = {
         "level_text": "Generated-input search: scaled numbers are compared in exact rational arithmetic against the decimal k*10^-d (and a 1e-4 bound for arbitrary floats), durations/instants by inverse round trip, relative-end periods through JSON within 1 s. Thorough enumerates all k in +-300000 x d in 0..4 and all n*100ms up to 55 h; beyond that random. Exploration, not proof: values outside the enumerated ranges are sampled.",
         "level_note": "Trusted: math/big, strconv.ParseFloat as the meaning of a decimal literal, rapid. Durations above 3276 days (period type's exact range) are outside the domain.",
     },
+    "C02": {
+        "technique": "property-based testing (rapid histories per list type) against a reference fold of the cmdOption rules, plus idempotence as a metamorphic relation and a per-type shape sweep",
+        "design_ref": "DESIGN.md §4 C02",
+        "level_text": "Generated histories of updates in all eight filter shapes are applied to the real stores (wire reply/notify into a remote feature; UpdateData/SetData on a local feature) and DataCopy is compared after every step with an independent ~80-line reference fold; uniqueness, ordering and idempotence are checked in the same step. Thorough covers all 83 Updater types. Exploration over small identifier domains; not a proof.",
+        "level_note": "Trusted: the reference fold, rapid, JSON canonicalisation of items. Outside the asserted domain (DESIGN §4 C02 NA): multi-match selectors, selectors on non-key/struct fields, duplicate identifiers in one update, unsorted filter-less replaces, key-less partial merges.",
+    },
 }
